@@ -13,16 +13,17 @@ from harness.impl import tree as TR
 
 IMPORTS = ("From Coq Require Import String.\nFrom Ford Require Import Base.Str Base.StrX Sem.Tree Sem.TypeSpec Sem.DeclSpec "
            "Sem.CascadeTypes Sem.Cascade Sem.CascadeSpec Sem.CascadeTree Corr.C01 Corr.C01cascade.")
-THEOREMS = ["C01_cascade_tables", "C01_dispatch", "C01_dispatch_examples", "C01_dispatch_refuted_all_spellings",
-            "C01_dispatch_witness_final", "C01_dispatch_witness_end_blockdata", "C01_dispatch_witness_labelled_end",
-            "C01_assignment_refuted_interface"]
+THEOREMS = ["C01_cascade_tables", "C01_dispatch", "C01_dispatch_examples", "C01_dispatch_fixed_final",
+            "C01_dispatch_fixed_end_blockdata", "C01_dispatch_fixed_labelled_end", "C01_assignment_fixed_interface",
+            "C01_dispatch_fixed_program_inside_unit"]
 PROPS_FILE = "theories/Props/C01cascade.v"
 BUILD_TARGETS = ["theories/Corr/C01cascade.vo", "theories/Props/C01cascade.vo"]
 TRANSLATORS = ["t_c01_cascade.py"]
 UNMODELLED, MALFORMED = 1000, 2000
 PROBE_T = "probe"
-# spellings FORD is known to treat differently (CascadeSpec.known_region)
-REGIONS = {3: "final-without-double-colon", 4: "end-blockdata-spelling", 5: "labelled-end-statement"}
+# spellings FORD is known to treat differently (region codes of the judge other than 0 and 9): none since
+# FINAL without "::", "end blockdata" and labelled END statements were repaired
+REGIONS = {}
 
 KINDS = list(I.PROLOGUE)
 
@@ -283,19 +284,23 @@ def run_slines(chk, P, n, stats, explore=False):
 
 
 def witnesses(chk, P):
-    """open findings replayed on the running code (KNOWN-FINDING lines)"""
-    o = P.probe("KType", True, 0, "final f1")
-    chk.known("final-without-double-colon", not any(t == "LFinal" for t, _ in o["created"]))
-    o = P.probe("KBlockData", False, 0, "end blockdata bd")
-    chk.known("end-blockdata-spelling", o["branch"] != "END_RE")
-    o = P.probe("KSubroutine", False, 0, "99 end subroutine sub")
-    chk.known("labelled-end-statement", o["branch"] != "END_RE")
-    o = P.probe("KSubroutine", False, 0, "interface = 3")
-    chk.known("interface-named-variable-assignment", o["branch"] == "INTERFACE_RE")
-    o = P.probe("KModule", False, 0, "program p")
-    chk.known("program-statement-inside-unit", (o["raised_in_dispatch"] or "").startswith("AttributeError"))
-    for _ in range(5):
-        chk.count(("witness", _), sample=None)
+    """repaired defects: their former witnesses are regression inputs -- the defect coming back is a failing
+    input (the same lines are Examples of Sem/CascadeProofs.v, theorems C01_*_fixed_* of Props/C01cascade.v)"""
+    def regression(key, ctx, line, bad):
+        o = P.probe(ctx[0], ctx[1], ctx[2], line)
+        chk.count(("regression", key), sample=None)
+        if bad(o):
+            chk.violation("failing-input", {"what": "a repaired defect is back: " + key, "ctx": ctx, "line": line,
+                          "ford": {k: o[k] for k in ("branch", "created", "ifaces", "raised_in_dispatch")}}, True)
+    regression("final-without-double-colon", ("KType", True, 0), "final f1",
+               lambda o: ("LFinal", "f1") not in [tuple(c) for c in o["created"]])
+    regression("end-blockdata-spelling", ("KBlockData", False, 0), "end blockdata bd", lambda o: o["branch"] != "END_RE")
+    regression("labelled-end-statement", ("KSubroutine", False, 0), "99 end subroutine sub",
+               lambda o: o["branch"] != "END_RE" or o["created"])
+    regression("interface-named-variable-assignment", ("KSubroutine", False, 0), "interface = 3",
+               lambda o: o["branch"] == "INTERFACE_RE" or o["ifaces"])
+    regression("program-statement-inside-unit", ("KModule", False, 0), "program p",
+               lambda o: bool(o["raised_in_dispatch"]) or o["created"])
 
 
 def run_files(chk, n, stats):
